@@ -583,14 +583,11 @@ LEMMA_ASSUMPTIONS = [
     "with-its-only-line-break for comments WITHOUT line-break characters, the column languages for rows); utf-8 written is utf-8 read",
     "round-trip lemma, assumed (reading of the abstract string vocabulary): re_hit / re_group / strlen / drop_prefix / removesuffix / startswith / str.lstrip / "
     "is_blank on string ids are CPython's functions of the texts; under this reading the lemma's hypotheses `node lines are rows`, `'#' lines are comments and no "
-    "rows`, `the kept text of a written comment line, leading blanks aside, is the comment, leading blanks aside`, `the column-header line is dropped` ARE the "
+    "rows`, `the kept text of a written comment line, leading blanks aside, is the comment, leading blanks aside`, `the column-header line starts like the header` ARE the "
     "discharged obligations C01/regex/written-row-line-is-a-row, C01/regex/written-comment-line-is-a-comment-and-no-row, C01/lemma/comments/text/* (types "
     "non-negative: a negative type is written as '-3', which the row pattern of the reader does not accept)",
-    "round-trip lemma, hypothesis that is NOT discharged (known finding): every written comment line is kept by the reader - false for a comment that starts "
-    "like the column header (C01/lemma/comments/text/every-written-comment-is-kept-by-the-reader fails with the text 'id type x y z r pid'); the comment part "
-    "of the composition is proved UNDER this hypothesis",
     "assumed-lemma: counting lemma (lean/Count.lean: count_skips, count_counts): a counter defined by c(k+1) = c(k) + [p(k)] does not move over a block of lines "
-    "none of which satisfies p and counts one by one over a block all of which satisfy p.  Instance: the ghost counters rows_before / comments_before of "
+    "none of which satisfies p and counts one by one over a block all of which satisfy p.  Instance: the ghost counters rows_before / hash_lines_before of "
     "contracts/C02.py over the written text = m comment lines, the column header, n node lines (the block premises are obligations of the lemma)",
 ]
 
@@ -738,7 +735,8 @@ def roundtrip_lemma(tamper=None):
     E.assume(z3.ForAll([j], z3.Implies(z3.And(j >= 0, j < mc), to_z3(cy, "bool")), patterns=[WCOM(j)]))
     whdr = STR.lit(E, "# " + " ".join(NC) + "\n")  # to_swc's clause column-header-line-follows-the-comments
     # the reading of the abstract vocabulary (LEMMA_ASSUMPTIONS): node lines are rows, '#' lines are comments and no rows, what the reader keeps of a
-    # written comment line is the comment (leading blanks aside), the header line is dropped, [NOT discharged: every written comment line is kept]
+    # written comment line is the comment (leading blanks aside), the header line starts like the column header.  NOTHING is assumed about whether a
+    # written comment starts like the column header: it may (the former finding), the reader keeps it all the same
     hdr_txt = z3.StringVal(C02.header_text(names))
     is_row, is_cm, ctext = (lambda s: C02.is_row(0, s)), (lambda s: C02.is_comment(0, s)), C02.comment_text
     LSTRIP = z3.Function("str.lstrip", z3.IntSort(), z3.IntSort())
@@ -748,13 +746,12 @@ def roundtrip_lemma(tamper=None):
     blank = lambda c: z3.Or(C02.IS_BLANK(c), c == 0)
     # reading of C01/regex/written-comment-line-is-a-comment-and-no-row and C01/lemma/comments/text/*: for ANY comment text
     E.assume(z3.ForAll([qc], z3.And(is_cm(full_line), LSTRIP(ctext(full_line)) == LSTRIP(qc)), patterns=[full_line]))
-    E.assume(z3.And(is_cm(bare_line), ctext(bare_line) == 0, z3.Not(C02.STARTS(z3.IntVal(0), hdr_txt)), LSTRIP(z3.IntVal(0)) == 0))
+    E.assume(z3.And(is_cm(bare_line), ctext(bare_line) == 0, LSTRIP(z3.IntVal(0)) == 0))
     E.assume(z3.ForAll([qc], z3.Implies(blank(qc), LSTRIP(qc) == 0), patterns=[LSTRIP(qc)]))
     E.assume(z3.And(is_cm(whdr), C02.STARTS(ctext(whdr), hdr_txt)))
-    E.assume(z3.ForAll([qc], z3.Not(C02.STARTS(ctext(full_line), hdr_txt)), patterns=[full_line]))  # NOT discharged: the known finding (LEMMA_ASSUMPTIONS)
-    E.prove("lemma/roundtrip/structure/every-written-comment-line-is-a-comment-line-whose-kept-text-is-the-comment-leading-blanks-aside(under-the-undischarged-hypothesis)",
-            z3.ForAll([j], z3.Implies(z3.And(j >= 0, j < mc), z3.And(is_cm(WCOM(j)), LSTRIP(ctext(WCOM(j))) == LSTRIP(z3.Select(passed.cols[0], j)),
-                                                                      z3.Not(C02.STARTS(ctext(WCOM(j)), hdr_txt)))), patterns=[WCOM(j)]), "lemma")
+    E.prove("lemma/roundtrip/structure/every-written-comment-line-is-a-comment-line-whose-kept-text-is-the-comment-leading-blanks-aside",
+            z3.ForAll([j], z3.Implies(z3.And(j >= 0, j < mc), z3.And(is_cm(WCOM(j)), LSTRIP(ctext(WCOM(j))) == LSTRIP(z3.Select(passed.cols[0], j)))),
+                      patterns=[WCOM(j)]), "lemma")
     header_facts = z3.And(is_cm(whdr), C02.STARTS(ctext(whdr), hdr_txt))
     del E.pc[general:-1]
     E.assume(header_facts)
@@ -765,27 +762,36 @@ def roundtrip_lemma(tamper=None):
     E.assume(LINEf(mc) == whdr)
     E.assume(z3.ForAll([k], z3.Implies(z3.And(k > mc, k < NLf), LINEf(k) == WROW(k - mc - 1)), patterns=[LINEf(k)]))
     E.assume(z3.ForAll([k], z3.Not(C02.DECERR(f, k)), patterns=[C02.DECERR(f, k)]))
-    # the reader's ghost counters (definitions of contracts/C02.py) and the counting lemma (lean/Count.lean) over the three blocks
+    # the reader's ghost counters (definitions of contracts/C02.py) and the counting lemma (lean/Count.lean) over the blocks of the written text:
+    # rows: m+1 lines that are no rows, then n rows; comment lines: m+1 of them (the comments AND the column header), then n lines that are none
     C02.ghost_axioms(E, f, 0, names)
-    kept = lambda s: C02.kept_comment(0, names, s)
+    kept = lambda kk: C02.kept_comment(0, names, f, kk)
     rng = lambda t, lo, hi: z3.And(t >= lo, t < hi)
     E.prove("lemma/roundtrip/structure/no-line-before-the-first-node-line-is-a-row", z3.ForAll([k], z3.Implies(rng(k, 0, mc + 1), z3.Not(is_row(LINEf(k))))), "lemma")
     E.prove("lemma/roundtrip/structure/every-node-line-is-a-row", z3.ForAll([k], z3.Implies(rng(k, 0, n), is_row(LINEf(mc + 1 + k)))), "lemma")
-    E.prove("lemma/roundtrip/structure/every-written-comment-line-is-a-kept-comment(under-the-undischarged-hypothesis)",
-            z3.ForAll([k], z3.Implies(rng(k, 0, mc), kept(LINEf(k)))), "lemma")
-    E.prove("lemma/roundtrip/structure/neither-the-column-header-nor-a-node-line-is-a-kept-comment",
-            z3.ForAll([k], z3.Implies(rng(k, mc, mc + 1 + n), z3.Not(kept(LINEf(k))))), "lemma")
+    E.prove("lemma/roundtrip/structure/every-written-comment-line-and-the-column-header-line-is-a-comment-line",
+            z3.ForAll([k], z3.Implies(rng(k, 0, mc + 1), is_cm(LINEf(k)))), "lemma")
+    E.prove("lemma/roundtrip/structure/no-node-line-is-a-comment-line", z3.ForAll([k], z3.Implies(rng(k, mc + 1, mc + 1 + n), z3.Not(is_cm(LINEf(k))))), "lemma")
     tt = z3.Int("t")
-    RC, CC = (lambda x: C02.RCNT(f, x)), (lambda x: C02.CCNT(f, x))
+    RC, AC = (lambda x: C02.RCNT(f, x)), (lambda x: C02.ACNT(f, x))
     E.assume(z3.ForAll([tt], z3.Implies(z3.And(tt >= 0, tt <= mc + 1), RC(tt) == 0), patterns=[RC(tt)]))                     # count_skips  (a = 0, block m+1)
     E.assume(z3.ForAll([tt], z3.Implies(z3.And(tt >= 0, tt <= n), RC(mc + 1 + tt) == tt), patterns=[RC(mc + 1 + tt)]))          # count_counts (a = m+1, block n)
-    E.assume(z3.ForAll([tt], z3.Implies(z3.And(tt >= 0, tt <= mc), CC(tt) == tt), patterns=[CC(tt)]))                          # count_counts (a = 0, block m)
-    E.assume(z3.ForAll([tt], z3.Implies(z3.And(tt >= 0, tt <= n + 1), CC(mc + tt) == mc), patterns=[CC(mc + tt)]))              # count_skips  (a = m, block n+1)
+    E.assume(z3.ForAll([tt], z3.Implies(z3.And(tt >= 0, tt <= mc + 1), AC(tt) == tt), patterns=[AC(tt)]))                      # count_counts (a = 0, block m+1)
+    E.assume(z3.ForAll([tt], z3.Implies(z3.And(tt >= 0, tt <= n), AC(mc + 1 + tt) == mc + 1), patterns=[AC(mc + 1 + tt)]))      # count_skips  (a = m+1, block n)
     E.prove("lemma/roundtrip/structure/the-reader-does-not-raise:every-line-is-a-convertible-row-or-a-comment",
             z3.ForAll([k], z3.Implies(rng(k, 0, NLf), C02.line_ok(0, f, k))), "lemma")
     E.prove("lemma/roundtrip/structure/there-are-exactly-n-row-lines", C02.RCNT(f, NLf) == n, "lemma")
     E.prove("lemma/roundtrip/structure/the-row-lines-are-the-node-lines-in-node-order",
             z3.ForAll([k], z3.Implies(rng(k, 0, n), C02.LINE(f, C02.RLINE(f, k)) == WROW(k))), "lemma")
+    # which line the reader takes for the column header (C02's context-dependent definition): the last comment line in front of the first row line
+    E.prove("lemma/roundtrip/structure/the-first-row-line-is-the-first-node-line-and-m+1-comment-lines-precede-it",
+            z3.And(C02.FIRSTROW(f) == mc + 1, C02.NLEAD(f) == mc + 1), "lemma")
+    E.prove("lemma/roundtrip/structure/the-last-comment-line-before-the-first-row-is-the-writer's-column-header-line-and-starts-like-it",
+            z3.And(C02.ALINE(f, mc) == mc, C02.HASHDR(f)), "lemma")
+    E.prove("lemma/roundtrip/structure/every-written-comment-line-is-a-kept-comment(whatever-its-text)",
+            z3.ForAll([k], z3.Implies(rng(k, 0, mc), kept(k))), "lemma")
+    E.prove("lemma/roundtrip/structure/neither-the-column-header-nor-a-node-line-is-a-kept-comment",
+            z3.ForAll([k], z3.Implies(rng(k, mc, mc + 1 + n), z3.Not(kept(k)))), "lemma")
     E.prove("lemma/roundtrip/structure/there-are-exactly-m-kept-comment-lines", C02.CCNT(f, NLf) == mc, "lemma")
     E.prove("lemma/roundtrip/structure/the-kept-comment-lines-are-the-written-comment-lines-in-order",
             z3.ForAll([k], z3.Implies(rng(k, 0, mc), C02.LINE(f, C02.CLINE(f, k)) == WCOM(k))), "lemma")
@@ -895,7 +901,8 @@ def comment_text_lemmas(definitions_only=False):
     full, bare = z3.Concat(S("# "), u, S("\n")), S("#\n")
     comment = [z3.InRe(c, no_break)] + is_lstrip(c, w, u)
 
-    tail = z3.String("cl!tail")
+    tail, u3, nxt = z3.String("cl!tail"), z3.String("cl!u3"), z3.String("cl!next_line")
+    comment_no_row = z3.Intersect(RZ.parse(p_cm, f_cm).hit(m_cm), z3.Complement(RZ.parse(p_row, f_row).hit(m_row)))  # lines the reader takes for comments
 
     def reader(line):
         """C02.comment_text: line minus the matched prefix minus one trailing newline; for a line that starts with '#' the matched prefix is
@@ -915,10 +922,17 @@ def comment_text_lemmas(definitions_only=False):
         ("the-text-the-reader-keeps-of-a-bare-hash-line-is-empty", reader(bare), cm == S("")),
         ("read-back-text-leading-blanks-aside-is-the-comment-leading-blanks-aside", [z3.InRe(u, stripped)] + is_lstrip(blank_cm, w2, u2), u2 == u),
         ("a-blank-comment-minus-its-leading-blanks-is-empty(so-the-bare-hash-line-reads-back-right)", [z3.InRe(c, z3.Star(ws))] + is_lstrip(c, w, u), u == S("")),
-        ("the-reader-keeps-a-written-comment-unless-it-starts-like-the-column-header", [z3.InRe(u, stripped)], z3.PrefixOf(hdr, blank_cm) == like_header),
+        ("the-kept-text-of-a-written-comment-line-starts-like-the-column-header-exactly-if-the-comment-leading-blanks-aside-starts-with-the-column-names",
+         [z3.InRe(u, stripped)], z3.PrefixOf(hdr, blank_cm) == like_header),
         ("the-reader-keeps-the-empty-text-of-a-bare-hash-line", [], z3.Not(z3.PrefixOf(hdr, S("")))),
-        # PROPERTY C01, comment clause: EVERY comment comes back.  Fails on the unchanged library (known finding): counter-text 'id type x y z r pid'
-        ("every-written-comment-is-kept-by-the-reader", [z3.InRe(u, stripped), z3.InRe(u, no_break)], z3.Not(z3.PrefixOf(hdr, blank_cm))),
+        # PROPERTY C01, comment clause: EVERY comment comes back, WHATEVER its text (a comment that starts like the column header included: nothing is
+        # assumed about u beyond "no line break").  The reader (C02: kept_comment) drops one line at most: the LAST comment line in front of the first row.
+        # In the written text the line behind a comment's line is the line of the next comment or the column-header line; both pass the reader's comment
+        # test and fail its row test (the REAL patterns), so no written comment line is the last comment line in front of the rows.  (On the reader
+        # before the repair this obligation read "the kept text does not start like the header" and failed with the text 'id type x y z r pid'.)
+        ("every-written-comment-is-kept-by-the-reader", [z3.InRe(u, no_break), z3.InRe(u3, no_break),
+                                                          z3.Or(nxt == z3.Concat(S("# "), u3, S("\n")), nxt == bare, nxt == z3.Concat(S("# " + " ".join(names.cols())), ex, S("\n")))],
+         z3.And(z3.InRe(full, comment_no_row), z3.InRe(nxt, comment_no_row))),
         ("the-writer's-column-header-line-is-dropped-by-the-reader(with-any-extra-columns)",
          reader(z3.Concat(S("# " + " ".join(names.cols())), ex, S("\n"))), z3.PrefixOf(hdr, cm)),  # `ex`: whatever follows the seven names
     ]
